@@ -498,6 +498,10 @@ def gen_facts(node: Node, aliases) -> list[tuple[str, bool]]:
             if v.value is not False and v.value is not True:
                 pass
             out += [(key + " is None", False)]
+    elif isinstance(v, ast.Call) and ((isinstance(v.func, ast.Name) and v.func.id[:1].isupper()) or
+                                      (isinstance(v.func, ast.Attribute) and v.func.attr[:1].isupper())
+                                      or (isinstance(v.func, ast.Subscript) and isinstance(v.func.value, ast.Name) and v.func.value.id[:1].isupper())):
+        out += [(key + " is None", False)]      # a constructor call (CapWords callee) never evaluates to None
     elif isinstance(v, (ast.List, ast.Tuple, ast.Set)) and not v.elts:
         out += [(key, False)]
     elif isinstance(v, ast.Dict) and not v.keys:
